@@ -1,3 +1,4 @@
+import shutil
 import time
 """Per-property tables and the check engine."""
 import os, sys, json, re, time, subprocess, hashlib
@@ -14,6 +15,7 @@ TRUSTED_BASE = [
     "Axioms per theorem as printed by Print Assumptions (recorded in 'assumptions' below); allowlist is empty unless stated",
     "Hand-written Gallina model of muxide (coq/theories/Model): modelled, not verified; tied to /repo by the correspondence stage of this run",
     "Extraction: ExtrOcamlBasic only (bool/option/list/prod/unit/sumbool -> OCaml); no Extract Constant / Extract Inductive of our own",
+    "Translator gen/rust2coq.py (straight-line integer functions and named bit-field expressions of /repo re-derived on every run; coq/translated/Agree.v proves by conversion that they are the model's definitions) for C01 C04 C12 C14 C18",
     "Glue: ocaml/driver.ml, harness/src/main.rs, gen/*.py, bin/check (case language, hex printing, comparison, verdict)",
     "Transcribed standards (from memory; sandbox sealed): ISO/IEC 14496-12/-14/-15, AV1 5.5 + av1C, VP9 vpcC, Opus dOps, ADTS header, IEEE-754 binary64 as specified by Coq.Floats.SpecFloat, std::io::Write::write_all contract",
 ]
@@ -365,6 +367,30 @@ class Engine:
                                rc=p.returncode, tail=out[-600:] if p.returncode != 0 else "")
         return ok
 
+    def translated(self):
+        """regenerate build/gen/<pid>/Translated.v from today's Rust source and re-check coq/translated/Agree.v
+        against it; returns (ok, what)"""
+        import rust2coq
+        d = os.path.join(BUILD, "gen", self.pid)
+        os.makedirs(d, exist_ok=True)
+        text, problems = rust2coq.generate("/repo")
+        open(os.path.join(d, "Translated.v"), "w").write(text)
+        if problems:
+            return False, "translator could not read the source: " + "; ".join(problems)
+        for f in ("Translated.v", "Agree.v"):
+            if f == "Agree.v":
+                shutil.copy(os.path.join(COQ, "translated", "Agree.v"), os.path.join(d, "Agree.v"))
+            p = subprocess.run(["coqc", "-noglob", "-Q", os.path.join(COQ, "theories"), "Muxide", "-Q", ".", "", f],
+                               stdout=subprocess.PIPE, stderr=subprocess.STDOUT, timeout=600, cwd=d)
+            out = p.stdout.decode()
+            if p.returncode != 0:
+                return False, "%s no longer checks against the translated source: %s" % (f, out[-400:].replace("\n", " "))
+        agree = open(os.path.join(COQ, "translated", "Agree.v")).read()
+        want = len(re.findall(r"^Print Assumptions ", agree, re.M))
+        if out.count("Closed under the global context") != want or "Axioms:" in out:
+            return False, "unexpected Print Assumptions output for the translated-source theorems"
+        return True, ", ".join(re.findall(r"^Theorem ([A-Za-z0-9_]+)", agree, re.M))
+
     def coqchk(self):
         """thorough tier: re-check the compiled Props file and everything it depends on with the
         independent checker, and compare the axioms it reports with the per-theorem allowlist"""
@@ -498,6 +524,18 @@ class Engine:
                     broken.append(c)
                 else:
                     self.corr["foreign"] += 1
+        # translated-source obligations (model re-derived from the Rust text for straight-line integer functions)
+        if P.get("translated"):
+            ok, what = self.translated()
+            self.audit_info["translated_source"] = dict(ok=ok, what=what)
+            self.notes.append("translated-source obligations: %s (%s)" % ("checked" if ok else "BROKEN", what[:300]))
+            if not ok:
+                pseudo = Case("%s_translated_source" % self.pid, "fn")
+                pseudo.lines = ["translated-source-obligation", "-"]
+                pseudo.meta = dict(obligation=what)
+                self.mblocks[pseudo.id] = ["obligation: " + what]
+                self.iblocks[pseudo.id] = ["source: /repo/src/muxer/mp4.rs (days_to_ymd, format_unix_timestamp, adts_to_raw) and /repo/src/codec/opus.rs"]
+                broken.append(pseudo)
         # direct stage
         keys = P.get("checks", [])
         if keys:
@@ -1977,3 +2015,7 @@ for _p in ("C18", "C19", "C07"):
     PROPS[_p]["fams"] = PROPS[_p]["fams"] + [("fam_builder_scripts", 100, 3000)]
 for _p in ("C05", "C04"):
     PROPS[_p]["fams"] = PROPS[_p]["fams"] + [("fam_encode_paths", 100, 3000)]
+PROPS["C18"]["translated"] = True
+PROPS["C12"]["translated"] = True
+for _p in ("C14", "C01", "C04"):
+    PROPS[_p]["translated"] = True
